@@ -46,7 +46,7 @@ class ChildrenPlugin(LinkPlugin):
             P = lambda t: substitute(cond, (probe, t))
             Fv = fresh('filtered', LT)
             # assumed semantics of a comprehension with a condition (T1): the elements that satisfy it, in the order of the list
-            s.assume(And(ln(Fv) >= 0, (ln(Fv) > 0) == Exists([x], And(mem(xs.e, x), P(x))), ForAll([x], mem(Fv, x) == And(mem(xs.e, x), P(x)), patterns=[mem(Fv, x)]),
+            s.assume(And(ln(Fv) >= 0, (ln(Fv) > 0) == Exists([x], And(mem(xs.e, x), P(x))), ForAll([x], mem(Fv, x) == And(mem(xs.e, x), P(x)), patterns=[mem(Fv, x), mem(xs.e, x)]),
                          Implies(nodup(xs.e), nodup(Fv)),
                          ForAll([a_, b_], Implies(And(mem(Fv, a_), mem(Fv, b_)), (idx(Fv, a_) < idx(Fv, b_)) == (idx(xs.e, a_) < idx(xs.e, b_))), patterns=[MultiPattern(idx(Fv, a_), idx(Fv, b_))])))
             return [(s, V(Fv, LT))]
@@ -609,3 +609,126 @@ def task_init_unit():
 
 
 UNITS += [task_init_unit()]
+
+
+# ================================================================================================ _has_id_intersection (the id test of C05)
+from contracts.closure import SetPlugin, forest_struct as forest_below, WFH, same_heap as reads_only, MEASURE_AX as _M
+IDSET = S('IdSet', ArraySort(IntSort(), BoolSort()))
+
+
+def receiving_root(h, p):
+    """the root of the tree that `p` belongs to: the hidden root of its WBS, or the root of its detached tree"""
+    return If(h.own[p] != W.null, h.root[h.own[p]], rootof(h.par, p))
+
+
+def clash_def(h, p, Lc, part=None):
+    """the meaning of the id test (C05): among the tasks below the named tasks that are not yet in the receiving tree, two share an id, or one has the id of a task of the receiving tree"""
+    R = receiving_root(h, p); y, z, k1, k2 = Consts('y_ z_ k1_ k2_', T.z)
+    new = lambda t, k: And(mem(Lc, k), insub(h.par, k, t), Not(insub(h.par, R, t)))
+    parts = (Exists([y, z, k1, k2], And(new(y, k1), new(z, k2), y != z, h.tid[y] == h.tid[z])),
+             Exists([y, z, k1], And(new(y, k1), insub(h.par, R, z), h.tid[y] == h.tid[z])))
+    return Or(*parts) if part is None else parts[part]
+
+
+def id_test_unit():
+    def build():
+        hc = lambda c: H(c.eng, c.st)
+        prov = {}          # id-set term -> the task list it was built from
+
+        class IdPlugin(SetPlugin):
+            def ev_ListComp(self_, eng, e, st):
+                g = e.generators[0]
+                if len(g.ifs) == 1: return ChildrenPlugin.ev_ListComp(self_, eng, e, st)          # [t for t in L if COND]
+                raise Unsupported('comprehension form')
+
+            def cmp(self_, eng, st, k, l_, r, line):
+                if k in ('Eq', 'NotEq') and l_.s == INT and r.s == INT: return NotImplemented
+                return SetPlugin.cmp(self_, eng, st, k, l_, r, line)
+
+            def binop(self_, eng, st, k, l_, r, line):
+                if k == 'Add' and l_.s == LT and r.s == LT: return V(cat(l_.e, r.e), LT)
+                return NotImplemented
+
+            def call(self_, eng, e, st):
+                f = e.func
+                if isinstance(f, ast.Name) and f.id == 'set' and len(e.args) == 1 and isinstance(e.args[0], ast.ListComp):
+                    lc = e.args[0]; g = lc.generators[0]
+                    if g.ifs: raise Unsupported('set comprehension form')
+                    s, xs = eng.ev1(g.iter, st); Lx = self_.listval(eng, s, xs, e.lineno); tv_ = g.target.id
+                    src = ast.unparse(lc.elt).replace(' ', '')
+                    if src == f'id({tv_})':          # the set of the objects themselves
+                        Sx = fresh('objects', SetPlugin.SETS); s.assume(ForAll([x], Sx[x] == mem(Lx, x), patterns=[Sx[x]]))
+                        s.ghost.setdefault('objset_of', {})[Sx.get_id()] = Lx
+                        return [(s, V(Sx, SetPlugin.SETS))]
+                    if src == f'{tv_}.id':           # the set of their ids
+                        h = H(eng, s); Ix = fresh('ids', IDSET); kk = Int('kk'); wit_ = Function(f'idwit!{fresh_id()}', IntSort(), T.z)
+                        s.assume(And(ForAll([x], Implies(mem(Lx, x), Ix[h.tid[x]]), patterns=[mem(Lx, x)]),
+                                     ForAll([kk], Implies(Ix[kk], And(mem(Lx, wit_(kk)), h.tid[wit_(kk)] == kk)), patterns=[Ix[kk]])))
+                        s.ghost.setdefault('idset_of', {})[Ix.get_id()] = Lx
+                        return [(s, V(Ix, IDSET))]
+                if isinstance(f, ast.Name) and f.id == 'len' and len(e.args) == 1:
+                    s, v = eng.ev1(e.args[0], st)
+                    if v.s == LT: return [(s, V(ln(v.e), INT))]
+                    if v.s in (IDSET, SetPlugin.SETS):
+                        # the size of a finite set: an integer tied to the set it measures; only comparisons of two sizes built from the SAME list are interpreted (below)
+                        n = fresh('size', INT); s.assume(n >= 0)
+                        s.ghost.setdefault('size_of', {})[n.get_id()] = (v.s, v.e)
+                        if v.s == IDSET:
+                            kk = Int('kk'); s.assume((n > 0) == Exists([kk], v.e[kk]))
+                        return [(s, V(n, INT))]
+                if isinstance(f, ast.Attribute) and f.attr == 'intersection':
+                    s, a1 = eng.ev1(f.value, st); s, a2 = eng.ev1(e.args[0], s)
+                    Ix = fresh('common', IDSET); kk = Int('kk'); s.assume(ForAll([kk], Ix[kk] == And(a1.e[kk], a2.e[kk]), patterns=[Ix[kk], a1.e[kk], a2.e[kk]]))
+                    return [(s, V(Ix, IDSET))]
+                return SetPlugin.call(self_, eng, e, st)
+
+            def ev_Compare(self_, eng, e, st):
+                # len(<set of the ids of L>) != len(<set of the objects of L>): the ids of the tasks of L are not pairwise different (pigeonhole; assumed fact about finite sets)
+                if len(e.ops) == 1 and isinstance(e.ops[0], ast.NotEq) and all(isinstance(z, ast.Call) and isinstance(z.func, ast.Name) and z.func.id == 'len' for z in (e.left, e.comparators[0])):
+                    s, a = eng.ev1(e.left, st); s, b = eng.ev1(e.comparators[0], s)
+                    so = s.ghost.get('size_of', {}); sa, sb = so.get(a.e.get_id()), so.get(b.e.get_id())
+                    if sa and sb and {sa[0], sb[0]} == {IDSET, SetPlugin.SETS}:
+                        ids_, objs_ = (sa[1], sb[1]) if sa[0] == IDSET else (sb[1], sa[1])
+                        La = s.ghost.get('idset_of', {}).get(ids_.get_id()); Lb = s.ghost.get('objset_of', {}).get(objs_.get_id())
+                        if La is not None and Lb is not None and La.eq(Lb):
+                            h = H(eng, s); y, z = Consts('y_ z_', T.z)
+                            return [(s, V(Exists([y, z], And(mem(La, y), mem(La, z), y != z, h.tid[y] == h.tid[z])), BOOL))]
+                return NotImplemented
+
+        def c_find_root(eng, st, recv, args, kws, node):
+            h = H(eng, st); t = args[0].e
+            st.oblige('req@_find_root/task-non-null-outside-every-WBS', And(t != null, h.own[t] == W.null, Inv(h)['C11/W1-owner-follows-the-hierarchy'], Inv(h)['DR-reserved-id-marks-hidden-roots-only']), f'@{node.lineno}')
+            return [(st, V(rootof(h.par, t), T))]
+
+        def c_collect(eng, st, recv, args, kws, node):
+            h = H(eng, st); t = args[0].e
+            st.oblige('req@_collect_subtree/task-non-null', t != null, f'@{node.lineno}')
+            st.oblige('req@_collect_subtree/forest', forest_below(h, t), f'@{node.lineno}'); st.assume(WFH(h.par, h.chl, h.elems))
+            t0 = fresh('of', T); st.assume(t0 == t)          # a name for the argument (patterns must not contain if-then-else terms)
+            R = fresh('sub', LT); st.assume(And(ForAll([x], mem(R, x) == insub(h.par, t0, x), patterns=[mem(R, x), Desc(h.par, t0, x)]), mem(R, t0), nodup(R)))
+            return [(st, V(R, LT))]
+        k_ = Const('k_', T.z)
+
+        def inv(c):
+            h = hc(c); Lc = c['children']; i = c['_i0']; acc = c['all_children_tasks']; R = receiving_root(h, c['parent'])
+            return And(reads_only(c), i >= 0, i <= ln(Lc), c['parent_root'] == R, ForAll([x], mem(c['parent_tree'], x) == insub(h.par, c['parent_root'], x), patterns=[mem(c['parent_tree'], x), Desc(h.par, c['parent_root'], x)]), mem(c['parent_tree'], c['parent_root']),
+                       ForAll([x], Implies(mem(acc, x), Exists([k_], And(mem(Lc, k_), idx(Lc, k_) < i, insub(h.par, k_, x)))), patterns=[mem(acc, x)]),
+                       ForAll([k_], Implies(And(mem(Lc, k_), idx(Lc, k_) < i), mem(acc, k_)), patterns=[mem(Lc, k_)]),
+                       ForAll([k_, x], Implies(And(mem(Lc, k_), idx(Lc, k_) < i, Desc(h.par, k_, x)), mem(acc, x)), patterns=[MultiPattern(mem(Lc, k_), Desc(h.par, k_, x))]))
+        fc = {'sig': {'parent': T, 'children': LT}, 'locals': {'parent_root': T, 'parent_tree': LT, 'all_children_tasks': LT, 'new_tasks': LT},
+              'requires': [(l_, (lambda l_: lambda c: Inv(hc(c))[l_])(l_)) for l_ in LABS] +
+                          [('parent-and-named-tasks-non-null', lambda c: And(c['parent'] != null, ForAll([x], Implies(mem(c['children'], x), x != null)),
+                                                                              ForAll([ii_], Implies(And(0 <= ii_, ii_ < ln(c['children'])), at(c['children'], ii_) != null))))],
+              'loops': {0: {'fingerprint': 'for ch in children', 'invariant': [('collected-so-far-are-the-subtrees-of-the-named-tasks-visited', inv)]}},
+              'ensures': [('C05/true-only-if-a-new-task-shares-an-id-with-another-new-task-or-with-a-task-of-the-receiving-tree', lambda c: Implies(c.result.e, clash_def(hc(c), c['parent'], c['children']))),
+                          ('C05/false-only-if-no-two-new-tasks-share-an-id', lambda c: Implies(Not(c.result.e), Not(clash_def(hc(c), c['parent'], c['children'], 0)))),
+                          ('C05/false-only-if-no-new-task-has-the-id-of-a-task-of-the-receiving-tree', lambda c: Implies(Not(c.result.e), Not(clash_def(hc(c), c['parent'], c['children'], 1)))),
+                          ('C16/reads-only', reads_only)]}
+        contracts = {'prop:Task.wbs': lambda eng, st, recv, a, k, n: [(st, V(H(eng, st).own[recv.e], W))], 'WBS._root': c_root, 'fn:_find_root': c_find_root, 'fn:_collect_subtree': c_collect,
+                     'prop:Task.id': c_id}
+        return Engine(F, '_has_id_intersection', contracts, TASK_CLASSES, fc, plugins=[IdPlugin()]), LIST_AX + LIST_CAT_AX + GRAPH_AX + ROOT_AX
+    return Unit('_has_id_intersection', F, build, ['C05', 'C15'], timeout_ms=15000)
+
+
+ii_ = Int('ii_')
+UNITS += [id_test_unit()]
